@@ -32,6 +32,7 @@ def obligations(ctx, envs, which=("wf_structs", "wf_protos", "wf_env")):
         names = [n for n in names if n in which or (("rev" in which) and n.startswith("rev_ascending_"))]
         keep = []
         for line in src.split("\n"):
+            if line.startswith("/--"): continue      # doc comments of dropped theorems must not dangle
             if line.startswith("theorem "):
                 tn = line.split()[1]
                 if tn not in names: continue
